@@ -174,7 +174,9 @@ def check_acct(eng, run):
     fn = db.fn(SYNC_ABC)
     loop = next(n for n in own_nodes(fn.node) if isinstance(n, ast.While))
     aug = [n for n in ast.walk(loop) if isinstance(n, ast.AugAssign) and isinstance(n.op, ast.Add)]
-    counter = loop.test.left.id if isinstance(loop.test, ast.Compare) and isinstance(loop.test.left, ast.Name) else None
+    # the counter: the name in the loop test (either side: `sent < total` / `total > sent`) that the loop body increments
+    test_names = {x.id for x in ast.walk(loop.test) if isinstance(x, ast.Name)}
+    counter = next((a_.target.id for a_ in aug if isinstance(a_.target, ast.Name) and a_.target.id in test_names), None)
     ok = False
     msg = "the sent-counter is not advanced by the count returned by send() of the same iteration"
     for a in aug:
@@ -218,14 +220,30 @@ def check_acct(eng, run):
     # TLS backlog writer: head replaced by data[sent:] on a short write, removed otherwise
     tls = db.cls("lowlevel.api_async.transports.tls.AsyncTLSStreamTransport").methods["__write_all_to_ssl_object"]
     loop = next(n for n in own_nodes(tls.node) if isinstance(n, ast.While))
-    ifs = [n for n in ast.walk(loop) if isinstance(n, ast.If) and isinstance(n.test, ast.Compare) and isinstance(n.test.left, ast.Name) and _bound_from(tls, n.test.left.id, {"write"})]
+    from sa.norm import cmp_canon
+    ifs = []
     ok = False
-    for i in ifs:
-        strict = isinstance(i.test.ops[0], ast.Lt) and "len(" in ast.unparse(i.test.comparators[0])
-        keeps = any(isinstance(s, ast.Assign) and isinstance(s.value, ast.Subscript) and isinstance(s.value.slice, ast.Slice) and isinstance(s.value.slice.lower, ast.Name)
-                    and s.value.slice.lower.id == i.test.left.id for s in i.body)
-        drops = any(isinstance(s, ast.Delete) or (isinstance(s, ast.Expr) and "popleft" in ast.unparse(s)) for s in i.orelse)
-        ok = ok or (strict and keeps and drops)
+    for i in [n for n in ast.walk(loop) if isinstance(n, ast.If)]:
+        c = cmp_canon(tls, i.test)
+        if c is None:
+            continue
+        d, op = c
+        sent = next((k for k in d if k and not k.startswith("len(") and _bound_from(tls, k, {"write"})), None)
+        length = next((k for k in d if k.startswith("len(")), None)
+        if sent is None or length is None or len([k for k in d if k]) != 2 or d.get("", 0) != 0:
+            continue
+        ifs.append(i)
+        # which arm is the short write (sent < len(data))?  `sent < len` == (len - sent > 0) ; `sent >= len` is its complement
+        if op == ">" and d[sent] == -1 and d[length] == 1:
+            short, full = i.body, i.orelse
+        elif op == ">=" and d[sent] == 1 and d[length] == -1:
+            short, full = i.orelse, i.body
+        else:
+            continue
+        keeps = any(isinstance(s_, ast.Assign) and isinstance(s_.value, ast.Subscript) and isinstance(s_.value.slice, ast.Slice) and isinstance(s_.value.slice.lower, ast.Name)
+                    and s_.value.slice.lower.id == sent and s_.value.slice.upper is None for s_ in short)
+        drops = any(isinstance(s_, ast.Delete) or (isinstance(s_, ast.Expr) and "popleft" in ast.unparse(s_)) for s_ in full)
+        ok = ok or (keeps and drops)
     if not ok:
         run.finding("C04.acct", tls, ifs[0] if ifs else loop, "the TLS backlog is not advanced by exactly the count returned by ssl_object.write(): `sent < len(data)` must keep data[sent:], otherwise the chunk is removed")
     run.ob("C04.acct", tls.short, ok)
